@@ -107,7 +107,7 @@ def show_bytes(items):
     for b in items:
         if isinstance(b, int):
             out.append(chr(b) if 32 <= b < 127 else '\\x%02x' % b)
-        elif isinstance(b, (WChar, DecRun)):
+        elif isinstance(b, (WChar, DecRun, FloatLit)):
             out.append(repr(b))
         elif is_sym(b):
             out.append('{%s}' % b)
@@ -130,10 +130,16 @@ class WChar:
     def __init__(self, cp, n): self.cp = cp; self.n = n
     def __repr__(self): return '{U+%s/%d}' % (self.cp, self.n)
 
+class FloatLit:
+    """the plain decimal text (digits with one '.') of a non-negative finite f64 term; no sign, no exponent"""
+    __slots__ = ('val',)
+    def __init__(self, val): self.val = val
+    def __repr__(self): return '{float %s}' % (self.val,)
+
 class DecRun:
     """the decimal rendering of an unsigned integer term: 1..20 ASCII digits, no sign"""
-    __slots__ = ('val', 'bits')
-    def __init__(self, val, bits): self.val = val; self.bits = bits
+    __slots__ = ('val', 'bits', 'as_float')
+    def __init__(self, val, bits): self.val = val; self.bits = bits; self.as_float = None
     def __repr__(self): return '{dec %s}' % (self.val,)
 
 # ------------------------------------------------------------------ aggregates
@@ -144,9 +150,9 @@ class Tup:
 
 class Adt:
     """struct / enum value.  `vidx` is the variant index (0 for structs)."""
-    __slots__ = ('ty', 'variant', 'vidx', 'fields', 'names')
-    def __init__(self, ty, variant, vidx, fields, names=None):
-        self.ty = ty; self.variant = variant; self.vidx = vidx; self.fields = list(fields); self.names = names
+    __slots__ = ('ty', 'variant', 'vidx', 'fields', 'names', 'targs')
+    def __init__(self, ty, variant, vidx, fields, names=None, targs=()):
+        self.ty = ty; self.variant = variant; self.vidx = vidx; self.fields = list(fields); self.names = names; self.targs = targs
     def __repr__(self):
         head = self.ty + ('::' + self.variant if self.variant else '')
         if not self.fields:
@@ -251,7 +257,7 @@ def copy_value(v):
     if isinstance(v, Tup):
         return Tup([copy_value(x) for x in v.items])
     if isinstance(v, Adt):
-        return Adt(v.ty, v.variant, v.vidx, [copy_value(x) for x in v.fields], v.names)
+        return Adt(v.ty, v.variant, v.vidx, [copy_value(x) for x in v.fields], v.names, v.targs)
     if isinstance(v, Array):
         return Array([copy_value(x) for x in v.items])
     return v
@@ -261,7 +267,7 @@ def deep_clone(v):
     if isinstance(v, Tup):
         return Tup([deep_clone(x) for x in v.items])
     if isinstance(v, Adt):
-        return Adt(v.ty, v.variant, v.vidx, [deep_clone(x) for x in v.fields], v.names)
+        return Adt(v.ty, v.variant, v.vidx, [deep_clone(x) for x in v.fields], v.names, v.targs)
     if isinstance(v, Array):
         return Array([deep_clone(x) for x in v.items])
     if isinstance(v, StrBuf):
@@ -355,8 +361,11 @@ def seq_eq(xs, ys):
         return False
     conds = []
     for x, y in zip(xs, ys):
-        if isinstance(x, (WChar, DecRun)) or isinstance(y, (WChar, DecRun)):
+        if isinstance(x, (WChar, DecRun, FloatLit)) or isinstance(y, (WChar, DecRun, FloatLit)):
             if x is y:
+                continue
+            if isinstance(x, WChar) and isinstance(y, WChar) and x.n == y.n:
+                conds.append(int_eq(x.cp, y.cp))
                 continue
             raise Unsupported('comparison of composite string elements')
         c = int_eq(x, y)
